@@ -77,20 +77,116 @@ def grid(tier, seed):
     return calls
 
 
+NT = {'i8': 'signed char', 'u8': 'unsigned char', 'i16': 'short', 'u16': 'unsigned short', 'i32': 'int', 'u32': 'unsigned',
+      'i64': 'long long', 'u64': 'unsigned long long'}
+
+
+def grid_elastic(tier, seed):
+    """elastic_scaled_integer -> coarser elastic_scaled_integer: groups of calls, one TU each.
+    Every shift 1..40 for a signed and an unsigned narrowest type (and a third, seed-chosen, instantiation), the shifts
+    around the widths of the fundamental types (31, 32, 63, 64 and neighbours) for sources of 32..100 digits,
+    destination digits equal to / smaller than the source's, negative / zero / positive source exponents."""
+    rnd = random.Random(seed * 7919 + 90)
+    groups = []
+    sweeps = [('i32', 44, -20, 40), ('u32', 44, -20, 40)]
+    pool = [('i32', 63, -30, 40), ('u32', 64, -20, 40), ('i64', 50, -10, 40), ('i32', 70, -29, 40), ('u64', 41, -7, 40), ('i16', 36, -12, 35),
+            ('u8', 48, -24, 40), ('i32', 90, -15, 40)]
+    sweeps.append(pool[seed % len(pool)])
+    if tier != 'quick':
+        sweeps += [c for c in pool if c not in sweeps]
+    for (n, ds, es, cnt) in sweeps:
+        for k0 in range(1, cnt + 1, 10):
+            groups.append(['e2e_sweep<%s, %d, %d, %d, %d>(rng);' % (NT[n], ds, es, k0, min(10, cnt + 1 - k0))])
+    # (narrowest, source digits, source exponent, destination digits, shifts)
+    special = [('i32', 63, -30, 63, [30, 31, 32, 33, 62]), ('i32', 70, -28, 70, [31, 32, 63, 64, 65]), ('i32', 70, -40, 70, [31, 64]), ('u32', 64, -30, 64, [31, 32, 33, 63]),
+               ('u32', 80, -12, 80, [31, 32, 63, 64]), ('i64', 50, -10, 50, [31, 32]), ('i8', 40, -8, 20, [31, 15, 16]), ('i32', 33, -3, 33, [31, 32]),
+               ('i32', 32, 0, 32, [31, 30]), ('u32', 32, -8, 32, [31, 16]), ('i32', 100, -25, 100, [31, 63, 64, 95]), ('i32', 44, 3, 44, [31, 32]),
+               ('i32', 44, -20, 13, [31]), ('i32', 63, -30, 32, [31, 32]), ('u32', 64, -22, 33, [31, 63]), ('u64', 70, -20, 70, [31, 63, 64]),
+               ('i16', 20, -10, 20, [7, 8, 15, 16]), ('u8', 12, -6, 12, [7, 8, 11])]
+    if tier != 'quick':
+        for _ in range(40):
+            n = rnd.choice(list(NT)); ds = rnd.choice([24, 31, 32, 33, 47, 62, 63, 64, 65, 79, 100, 120])
+            if n[0] == 'i' and ds == 64:
+                ds = 66
+            special.append((n, ds, rnd.choice([-60, -33, -20, -5, 0, 4]), rnd.choice([ds, ds, max(1, ds - 20)]),
+                            sorted(set(k for k in (rnd.choice([1, 7, 15, 16, 30, 31, 32, 33, 62, 63, 64, 65, 90]) for _ in range(4)) if k < ds))))
+    cur = []
+    for (n, ds, es, dd, ks) in special:
+        for k in ks:
+            assert k < ds
+            cur.append('e2e<%s, %d, %d, %d, %d>(rng);' % (NT[n], ds, es, dd, k))
+            if len(cur) == 8:
+                groups.append(cur); cur = []
+    if cur:
+        groups.append(cur)
+    return groups
+
+
+def grid_to_integer(tier, seed):
+    """a scaled_integer whose representation carries the rounding mode -> fundamental integer (static_cast<D>):
+    scaled_integer<rounding_integer<S, Tag>, power<E>> for every tag x 8..64-bit signed and unsigned S x 8..64-bit D,
+    static_number<Digits, E, Tag, OTag, N>, nests of rounding and overflow layers"""
+    rnd = random.Random(seed * 4421 + 91)
+    calls = []
+    combos = [('i8', -4, 'i8'), ('i16', -7, 'i8'), ('i16', -7, 'i32'), ('i32', -16, 'i16'), ('i32', -2, 'i32'), ('i32', -30, 'i64'), ('i64', -32, 'i32'),
+              ('i64', -40, 'i64'), ('u16', -8, 'u8'), ('u32', -16, 'u32'), ('u8', -3, 'i32'), ('u64', -20, 'u64'), ('i8', -7, 'i32'), ('i64', -62, 'i16'),
+              ('i32', 2, 'i32'), ('i16', 0, 'i64'), ('i32', -1, 'i32')]
+    extra = 0 if tier == 'quick' else 30
+    reps = list(CT)
+    while extra:
+        s_ = rnd.choice(reps); lim = (31 if int(s_[1:]) <= 32 else 63) - 1
+        c = (s_, -rnd.choice([1, 2, 3, 5, 8, 13, 21, 30, 47, 61]), rnd.choice(reps))
+        if -c[1] <= lim and c not in combos:
+            combos.append(c); extra -= 1
+    for t in TAGS:
+        for (s_, e, d) in combos:
+            calls.append('w2i<scaled_integer<rounding_integer<%s, %s>, power<%d>>, %s>(rng);' % (CT[s_], TAGS[t], e, CT[d]))
+    OT = {'und': 'undefined_overflow_tag', 'sat': 'saturated_overflow_tag', 'trp': 'trapping_overflow_tag', 'thr': '_impl::throwing_overflow_tag'}
+    ots = list(OT)
+    i = seed
+    for t in TAGS:
+        # (the destination holds the Digits - k digits of the intermediate static_integer)
+        for (dg, e, d, n) in [(12, -4, 'i32', 'i32'), (20, -10, 'i16', 'i32'), (40, -20, 'i64', 'i32'), (10, -10, 'i32', 'i32'), (11, -3, 'u16', 'u32'),
+                              (24, -9, 'i32', 'i16'), (9, -1, 'i16', 'i8')]:
+            o = ots[i % len(ots)]; i += 1
+            calls.append('w2i<static_number<%d, %d, %s, %s, %s>, %s>(rng);' % (dg, e, TAGS[t], OT[o], 'long' if n == 'i64' else NT[n], CT[d]))
+        calls.append('w2i<static_number<12, -4, %s>, int>(rng);' % TAGS[t])
+        # nests of rounding and (native) overflow layers over a built-in (the layered model has no checked overflow tag
+        # over / under another wrapper: those are static_number's business)
+        calls.append('w2i<scaled_integer<rounding_integer<overflow_integer<int, native_overflow_tag>, %s>, power<-2>>, int>(rng);' % TAGS[t])
+        calls.append('w2i<scaled_integer<rounding_integer<overflow_integer<short, native_overflow_tag>, %s>, power<-9>>, long long>(rng);' % TAGS[t])
+        calls.append('w2i<scaled_integer<overflow_integer<rounding_integer<int, %s>, native_overflow_tag>, power<-5>>, int>(rng);' % TAGS[t])
+    return calls
+
+
 def tus(tier, seed):
     calls = grid(tier, seed)
     per = 3
     res = []
+    hdr = __file__.replace('.py', '.h')
     for i in range(0, len(calls), per):
-        body = '#include "%s"\nint main(){ install(); Rng rng(seed_from_env()+%d);\n' % (__file__.replace('.py', '.h'), i)
+        body = '#include "%s"\nint main(){ install(); Rng rng(seed_from_env()+%d);\n' % (hdr, i)
         for c in calls[i:i + per]:
             body += '  ' + c + '\n'
         body += '}\n'
         comp = 'clang++' if (tier == 'thorough' and (i // per) % 4 == 3) else 'g++'
         res.append(dict(name='C09_%d' % (i // per), src=body, compiler=comp, one_per_tu_on_failure=True))
+    groups = [('e', g) for g in grid_elastic(tier, seed)]
+    wc = grid_to_integer(tier, seed)
+    groups += [('w', wc[i:i + 12]) for i in range(0, len(wc), 12)]
+    for j, (kind, g) in enumerate(groups):
+        body = '#include "%s"\nint main(){ install(); Rng rng(seed_from_env()+%d);\n' % (hdr, 1000 + j)
+        for c in g:
+            body += '  ' + c + '\n'
+        body += '}\n'
+        comp = 'clang++' if (tier == 'thorough' and j % 4 == 3) else 'g++'
+        res.append(dict(name='C09_%s%d' % (kind, j), src=body, compiler=comp, one_per_tu_on_failure=True))
     return res
 
 
 RULE = ("floating sources: every tie n+1/2 at the destination resolution, its two neighbours, quarters and integers around 0, around a lattice of "
         "destination values and at the destination limits, plus structured floats; scaled sources: all values of 8/16-bit reps, lattice + ties "
-        "q*2^k + 2^(k-1) +- 1 otherwise; non-trivial = the rounded result is representable in the destination")
+        "q*2^k + 2^(k-1) +- 1 otherwise; elastic_scaled_integer sources (128-bit values): multiples q*2^k, ties and their neighbours for q around 0, "
+        "around half and at the top of the source's digits (both signs) and random q, the source limits, random values, for every shift 1..40 "
+        "and the shifts 31, 32, 63, 64 of 32..100-digit sources; representations carrying the rounding mode -> fundamental integer: all values of "
+        "<= 12-digit numbers, lattice + limits + ties +- 1 otherwise; non-trivial = the rounded result is representable in the destination")
